@@ -438,7 +438,13 @@ pub fn exec(plan: &ConcPlan) -> RunOut {
     };
     // errors: a server error merely because another request overlapped is a violation, unless an
     // injected stall of >= 5 s explains a lock-wait timeout
-    let stalled_long = plan.sched.stalls.iter().any(|(_, d)| *d >= 4_900_000) && so.stalls_fired > 0;
+    // ... or a slow node: service times and starvation by the scheduler kept some request (hence
+    // possibly a lock holder) busy for about the whole lock-wait budget of simulated time
+    let slow_node = done.iter().any(|d| d.t_ret - d.t_inv >= 4_400_000);
+    if slow_node {
+        out.bump("fault.slow_node_exceeding_lock_wait_budget");
+    }
+    let stalled_long = (plan.sched.stalls.iter().any(|(_, d)| *d >= 4_900_000) && so.stalls_fired > 0) || slow_node;
     let mut failed: Vec<usize> = Vec::new();
     for (i, d) in done.iter().enumerate() {
         if let Resp::Error(e) | Resp::Panic(e) = &d.resp {
